@@ -822,7 +822,17 @@ def gen_params(funcs, data_funcs):
                "instance : Decidable (readsFooter v1) := by unfold readsFooter; infer_instance\n" % unparen(bool_expr(kids(s)[0])))
     if tail[5].get("kind") != "ReturnStmt" or peel(kids(tail[5])[0]).get("value") is not True:
         raise ExtractError("readDataBlock does not end with `return true`")
-    return out
+    # every definition names the function it was taken from (the coverage report attributes it by that)
+    section, res = None, []
+    for item in out:
+        if item.startswith("/-! ### `detail::readTimeZoneFile`"):
+            section = "`detail::readTimeZoneFile`"
+        elif item.startswith("/-! ### `detail::readDataBlock`"):
+            section = "`detail::readDataBlock`"
+        elif section and item.startswith("/-- ") and not item.startswith("/-- " + section):
+            item = "/-- " + section + ": " + item[4:]
+        res.append(item)
+    return res
 
 
 def unparen_first(s):
